@@ -313,8 +313,9 @@ Definition clean_one (a : clean_args) (f : fsys) (n : node) : fsys * cstep :=
                  else match fs_get f p with None => true | _ => false end in
   if missing then (f, CSkip)
   else
-    let is_vol := memN (nfstate n) volatile_states in
-    (* changed = state != VOLATILE and old_hash.refreshed(path) != old_hash  (kind conjuncts REGENERATED) *)
+    (* changed = <state conjuncts> and old_hash.refreshed(path) != old_hash
+       (state conjuncts REGENERATED: clean_compared_states; kind conjuncts REGENERATED: clean_hash_checked) *)
+    let is_vol := negb (memN (nfstate n) clean_compared_states) in
     match (if is_vol then Some false else
            if negb (clean_hash_checked (lkind f p)) then Some false else
              match stat f p with
